@@ -121,6 +121,38 @@ func classifyLoop(fn *ssa.Function, h *ssa.BasicBlock) *loopInfo {
 	if !ok || li.body != t {
 		return li
 	}
+	// a conjunctive loop condition (for i := 0; c && i < n; i++): the counter
+	// test sits in a later block of the condition chain; every block of the
+	// chain leaves the loop on its false edge and only computes the condition
+	for hops := 0; hops < 3; hops++ {
+		if ph, isPhi := cmp.X.(*ssa.Phi); cmp.Op == token.LSS && isPhi && ph.Block() == h {
+			break
+		}
+		if inc, isInc := cmp.X.(*ssa.BinOp); cmp.Op == token.LSS && isInc && inc.Op == token.ADD {
+			break
+		}
+		nb := li.body
+		if len(nb.Preds) != 1 || len(nb.Succs) != 2 || !li.blocks[nb.Succs[0]] || li.blocks[nb.Succs[1]] {
+			return li
+		}
+		pure := true
+		for _, in := range nb.Instrs[:len(nb.Instrs)-1] {
+			switch in.(type) {
+			case *ssa.BinOp, *ssa.DebugRef:
+			default:
+				pure = false
+			}
+		}
+		nif, isIf := nb.Instrs[len(nb.Instrs)-1].(*ssa.If)
+		if !pure || !isIf {
+			return li
+		}
+		ncmp, isCmp := nif.Cond.(*ssa.BinOp)
+		if !isCmp {
+			return li
+		}
+		cmp, li.body = ncmp, nb.Succs[0]
+	}
 	if cmp.Op != token.LSS {
 		return li
 	}
